@@ -98,6 +98,8 @@ package evaluator
 //@   modifies nothing
 
 //@ func (e *Evaluator) Eval
+//@   goal string-literal-is-escaped-with-quotes-restored: istype(node, *ast.StringLiteral) ==> istype(result, *object.Str) && as(result, *object.Str).Value ==
+//@        lib("strings.ReplaceAll", lib("strings.ReplaceAll", lib("html.EscapeString", as(node, *ast.StringLiteral).Value), "&#34;", "\""), "&#39;", "'")
 //@   requires WFN(node) && env != nil
 //@   use wfExpressionStmt(as(node, *ast.ExpressionStmt))
 //@   use wfInfixExp(as(node, *ast.InfixExp))
@@ -185,6 +187,7 @@ package evaluator
 //@   call Set#0: bind setErr
 //@   call Set#0: assert argument-bound-in-component-scope: arg0 == newEnv && arg1 == key && arg2 == val
 //@   call Eval#2: assert body-in-component-scope: arg1 == iface(node.Block) && arg2 == newEnv
+//@   call Eval#2: assert every-use-has-a-scope-of-its-own-enclosing-the-caller: fresh(arg2) && arg2.outer == env
 //@   loop 0: continues-only-if args-bound: setErr == nil
 //@   loop 0: invariant newEnv != nil && fresh(newEnv) && newEnv.outer == env && fresh(stmt) && name != nil
 //@   requires node != nil && WFNode(iface(node)) && env != nil
@@ -292,7 +295,7 @@ package evaluator
 //@   modifies contents(env.store)
 
 //@ func (e *Evaluator) evalString
-//@   goal escapes-with-quotes-restored: istype(result, *object.Str) && as(result, *object.Str).Value ==
+//@   ensures escapes-with-quotes-restored: istype(result, *object.Str) && as(result, *object.Str).Value ==
 //@        lib("strings.ReplaceAll", lib("strings.ReplaceAll", lib("html.EscapeString", node.Value), "&#34;", "\""), "&#39;", "'")
 //@   goal fresh-result: fresh(result)
 //@   requires node != nil
@@ -308,10 +311,11 @@ package evaluator
 //@   modifies contents(env.store)
 
 //@ func (e *Evaluator) evalTernaryExp
-//@   return 0: assert error-passed-through-unchanged: result == condition
+//@   call Eval#0: bind cond
+//@   goal error-in-the-condition-is-the-result: isErr(cond) ==> result == cond
 //@   call Eval#0: assert condition-first: arg1 == node.Condition && arg2 == env
-//@   call Eval#1: assert then-only-if-truthy: truthy(condition) && arg1 == node.Consequence && arg2 == env
-//@   call Eval#2: assert else-only-if-falsy: !truthy(condition) && arg1 == node.Alternative && arg2 == env
+//@   call Eval#1: assert then-only-if-truthy: !isErr(cond) && truthy(cond) && arg1 == node.Consequence && arg2 == env
+//@   call Eval#2: assert else-only-if-falsy: !isErr(cond) && !truthy(cond) && arg1 == node.Alternative && arg2 == env
 //@   requires node != nil && WFNode(iface(node)) && env != nil
 //@   use wfTernaryExp(node)
 //@   ensures result != nil
@@ -570,8 +574,20 @@ package evaluator
 //@   modifies nothing
 //@   loop 0: invariant fresh(reversed) && len(reversed) == length && length == len(elems) && forall(j, 0, rangeindex+1, reversed[length-j-1] != nil && reversed[length-j-1] == elems[j])
 //@   loop 0: invariant elems == as(receiver, *object.Array).Elements
+//@ spec sliceFrom(v int, n int) int = ite(v < 0, 0, ite(v > n, n, v))
+//@ spec sliceTo(v int, n int, from int) int = ite(ite(v < 0 || v > n, n, v) < from, from, ite(v < 0 || v > n, n, v))
+// C11: slice clamps its bounds (start into [0, len], end into [start, len], an end that is
+// negative or past the end meaning "to the end") and refuses arguments that are not integers
 //@ func arraySliceFunc
 //@   ints wrap64
+//@   goal wrong-argument-kinds-are-errors: len(args) == 0 || !istype(args[0], *object.Int) || (len(args) >= 2 && !istype(args[1], *object.Int)) ==> result1 != nil
+//@   goal integer-arguments-never-fail: len(args) >= 1 && istype(args[0], *object.Int) && (len(args) == 1 || istype(args[1], *object.Int)) ==> result1 == nil
+//@   goal one-argument-is-the-tail-from-the-clamped-start: result1 == nil && len(args) == 1 ==>
+//@        len(as(result0, *object.Array).Elements) == len(as(receiver, *object.Array).Elements) - sliceFrom(intOf(args[0]), len(as(receiver, *object.Array).Elements))
+//@        && forall(k, 0, len(as(result0, *object.Array).Elements), as(result0, *object.Array).Elements[k] == as(receiver, *object.Array).Elements[sliceFrom(intOf(args[0]), len(as(receiver, *object.Array).Elements)) + k])
+//@   goal two-arguments-are-the-clamped-range: result1 == nil && len(args) >= 2 ==>
+//@        len(as(result0, *object.Array).Elements) == sliceTo(intOf(args[1]), len(as(receiver, *object.Array).Elements), sliceFrom(intOf(args[0]), len(as(receiver, *object.Array).Elements))) - sliceFrom(intOf(args[0]), len(as(receiver, *object.Array).Elements))
+//@        && forall(k, 0, len(as(result0, *object.Array).Elements), as(result0, *object.Array).Elements[k] == as(receiver, *object.Array).Elements[sliceFrom(intOf(args[0]), len(as(receiver, *object.Array).Elements)) + k])
 //@   goal never-an-invalid-slice: result1 == nil ==> istype(result0, *object.Array) && len(as(result0, *object.Array).Elements) <= len(as(receiver, *object.Array).Elements)
 //@   requires receiver != nil && istype(receiver, *object.Array)
 //@   ensures result1 == nil ==> result0 != nil
